@@ -111,10 +111,22 @@ def run_for_property(prop, jobs=4):
             # the thorough tier of one property re-runs only the harmless patches that touch its own files (at most 6); the complete
             # matrix (every patch x every check) is `./check selftest`
             touched = set(re.findall(r'^\+\+\+ b/(\S+)', open(m['patch']).read(), re.M))
-            if not (touched & mine) or nb >= 6:
+            if not (touched & mine) or nb >= 2:
                 continue
             nb += 1
         ms.append(m)
+    # keep the thorough tier of one property short (it also analyses every build configuration): the confirmed seeded changes of the
+    # property first, then hand-written must-fire mutants, then at most two must-stay-silent edits; everything else is covered by
+    # `./check selftest` (evidence/selftest.json)
+    def rank(m):
+        if m['name'].startswith('seeded-'):
+            return 0
+        if m['expect'] == 'fire':
+            return 1
+        return 2
+    ms.sort(key=rank)
+    silent = [m for m in ms if rank(m) == 2][:2]
+    ms = [m for m in ms if rank(m) < 2][:6] + silent
     # run only this property's check for each of them
     ms = [dict(m, property=prop) for m in ms]
     workdir = tempfile.mkdtemp(prefix='mls-selftest-')
